@@ -322,6 +322,11 @@ class BaseTransform:
         # Idea: An operation applied to a Collection is individually
         #    applied to its BaseGeo and to each child.
 
+        # the displacement may be a view of a path that this operation changes
+        # (e.g. `col.move(child.position)`): every member must see the same value
+        if isinstance(displacement, np.ndarray):
+            displacement = displacement.copy()
+
         for child in getattr(self, "children", []):
             child.move(displacement, start=start)
 
